@@ -2,7 +2,8 @@
 
 On every run this re-reads, with ``ast`` only (nothing of cogent3 is imported or executed),
 
-    core/sequence.py       Sequence.get_features, Sequence.make_feature, Sequence.parent_coordinates -> namespace GenOld
+    core/sequence.py       Sequence.get_features, Sequence.make_feature, Sequence.parent_coordinates,
+                           Sequence.add_feature (+ the inlined annotation_offset property)             -> namespace GenOld
     core/new_sequence.py   the same names                                                             -> namespace GenNew
     core/location.py       _spans_from_locations, MapABC.from_locations, FeatureMap.nucleic_reversed  -> namespace GenLoc
 
@@ -104,6 +105,7 @@ class Fn:
         self.kind = kind
         self.monadic = True
         self.tmp = 0
+        self.params = _params(fdef)
 
     def fresh(self, stem="t"):
         self.tmp += 1
@@ -209,6 +211,14 @@ class Fn:
             self.fail(node, f"arithmetic on {ta}/{tb}")
         if isinstance(node, ast.Tuple) and len(node.elts) == 0:
             return "[]", SPANS
+        if isinstance(node, ast.Tuple) and len(node.elts) == 2:
+            a, ta = self.expr(node.elts[0], env)
+            b, tb = self.expr(node.elts[1], env)
+            if ta != INT or tb != INT:
+                self.fail(node, f"pair of {ta}/{tb}")
+            return f"({a}, {b})", ROW
+        if isinstance(node, (ast.ListComp, ast.GeneratorExp)):
+            return self.comprehension(node, env)
         if isinstance(node, ast.List):
             if not node.elts:
                 return "[]", "EmptyList"
@@ -240,6 +250,33 @@ class Fn:
         if isinstance(node, ast.Call):
             return self.call(node, env)
         self.fail(node, "expression outside the fragment")
+
+    def comprehension(self, node, env):
+        """`[(f(s, e), g(s, e)) for s, e in rows]` / the same as a generator: an elementwise map over an array of rows"""
+        if len(node.generators) != 1:
+            self.fail(node, "comprehension with several generators")
+        g = node.generators[0]
+        if g.ifs or g.is_async:
+            self.fail(node, "comprehension with a filter")
+        xs, tx = self.expr(g.iter, env)
+        if tx != ROWS:
+            self.fail(node, f"comprehension over a {tx}")
+        e2 = env.copy()
+        p = self.fresh("p")
+        if isinstance(g.target, ast.Tuple) and len(g.target.elts) == 2 and all(isinstance(x, ast.Name) for x in g.target.elts):
+            a, b = (x.id for x in g.target.elts)
+            e2.types[a] = INT
+            e2.types[b] = INT
+            pre = f"let {ln(a)} := {p}.1; let {ln(b)} := {p}.2; "
+        elif isinstance(g.target, ast.Name):
+            e2.types[g.target.id] = ROW
+            pre = f"let {ln(g.target.id)} := {p}; "
+        else:
+            self.fail(node, "comprehension target outside the fragment")
+        t, ty = self.expr(node.elt, e2)
+        if ty != ROW:
+            self.fail(node, f"comprehension element is a {ty}")
+        return f"({xs}.map fun ({p} : Int × Int) => {pre}{t})", ROWS
 
     def compare(self, left, op, right, env, node):
         a, ta = self.expr(left, env)
@@ -320,6 +357,11 @@ class Fn:
                 self.fail(node, f"len of a {ta}")
             if f.id in ("array", "list", "tuple", "int") and len(node.args) == 1 and all(k.arg == "dtype" for k in node.keywords):
                 return self.expr(node.args[0], env)
+            if f.id == "sorted" and len(node.args) == 1 and not node.keywords:
+                a, ta = self.expr(node.args[0], env)
+                if ta != ROWS:
+                    self.fail(node, f"sorted of a {ta}")
+                return f"(sortRows {a})", ROWS
             if f.id == "dict" and len(node.args) == 1:
                 a, ta = self.expr(node.args[0], env)
                 if ta == FEATURE:
@@ -373,8 +415,28 @@ class Fn:
         return f"(FMapG.mk {a} {b})", FMAP
 
     # ------------------------------------------------------------------ monadic calls
+    def monadic_attr(self, node, env, depth=0):
+        """`self._seq.parent_start` / `parent_stop` (C01's model; they assert), or a property of self whose body is a
+        single `return <such an expression>` (inlined)"""
+        if not isinstance(node, ast.Attribute):
+            return None
+        if self.is_self_seq(node) and node.attr in ("parent_start", "parent_stop"):
+            fn = "parentStart" if node.attr == "parent_start" else "parentStop"
+            return f"liftErr ({fn} {env.view})", INT
+        if isinstance(node.value, ast.Name) and node.value.id == "self" and depth < 3:
+            callee = self.unit.method(node.attr)
+            if callee is None or not any(isinstance(d, ast.Name) and d.id == "property" for d in callee.decorator_list):
+                return None
+            body = [x for x in callee.body if not (isinstance(x, ast.Expr) and isinstance(x.value, ast.Constant))]
+            if len(body) != 1 or not isinstance(body[0], ast.Return) or body[0].value is None:
+                self.fail(node, f"property {node.attr} is not a single return")
+            return self.monadic_attr(body[0].value, env, depth + 1)
+        return None
+
     def monadic_call(self, node, env):
         """(lean text of an `Except FErr T`, T) or None"""
+        if isinstance(node, ast.Attribute):
+            return self.monadic_attr(node, env)
         if not isinstance(node, ast.Call):
             return None
         f = node.func
@@ -579,6 +641,37 @@ class Fn:
         if not isinstance(target, ast.Name):
             self.fail(s, "assignment target outside the fragment")
         name = target.id
+        # feature_data = FeatureDataType(seqid=self.name, **{n: v for n, v in locals().items() if n not in (...)})
+        if isinstance(value, ast.Call) and isinstance(value.func, ast.Name) and value.func.id == "FeatureDataType":
+            star = [k.value for k in value.keywords if k.arg is None]
+            ok = (not value.args and len(star) == 1 and isinstance(star[0], ast.DictComp)
+                  and ast.unparse(star[0].generators[0].iter) == "locals().items()"
+                  and isinstance(star[0].key, ast.Name) and isinstance(star[0].value, ast.Name))
+            if ok:
+                g = star[0].generators[0]
+                tn = [x.id for x in g.target.elts] if isinstance(g.target, ast.Tuple) else []
+                ok = tn == [star[0].key.id, star[0].value.id]
+                excluded = set()
+                for cnd in g.ifs:
+                    if (isinstance(cnd, ast.Compare) and len(cnd.ops) == 1 and isinstance(cnd.ops[0], ast.NotIn)
+                            and isinstance(cnd.left, ast.Name) and cnd.left.id == star[0].key.id
+                            and isinstance(cnd.comparators[0], (ast.Tuple, ast.List, ast.Set))
+                            and all(isinstance(x, ast.Constant) for x in cnd.comparators[0].elts)):
+                        excluded |= {x.value for x in cnd.comparators[0].elts}
+                    else:
+                        ok = False
+            if not ok:
+                self.fail(s, "FeatureDataType(...) not built from locals()")
+            if {"spans", "strand"} & excluded or env.types.get("spans") != ROWS or env.types.get("strand") != STRAND:
+                self.fail(s, "the feature dict does not take `spans` / `strand` from the parameters")
+            if any(k.arg in ("spans", "strand") for k in value.keywords):
+                self.fail(s, "the feature dict overrides spans / strand")
+            if set(env.types) - set(self.params):
+                self.fail(s, "locals() read after other names were assigned")
+            e2 = env.copy()
+            e2.types[name] = FEATURE
+            e2.feat = {"spans": (ln("spans"), ROWS), "strand": (ln("strand"), STRAND)}
+            return nxt(e2)
         m = self.monadic_call(value, env)
         if m is not None:
             return self.bind(name, m[0], m[1], env, nxt, ind, monadic=True)
@@ -679,6 +772,8 @@ class Fn:
             ty = env.types.get(base)
             if ty == FEATURE and f.attr == "pop" and c.args and isinstance(c.args[0], ast.Constant) and c.args[0].value in ("on_alignment", "seqid"):
                 return nxt(env)   # dict plumbing of keys that carry no coordinates
+            if ty == FEATURE and f.attr == "pop" and c.args and isinstance(c.args[0], ast.Constant) and c.args[0].value in ("parent_id",):
+                return nxt(env)
             if ty in (SPANS, ROWS, "EmptyList") and f.attr == "append" and len(c.args) == 1:
                 t, te = self.expr(c.args[0], env)
                 lt = {SPAN: SPANS, ROW: ROWS}.get(te)
@@ -697,6 +792,18 @@ class Fn:
                 return f"{pad}let {ln(base)} := {t} :: {ln(base)}\n" + nxt(env)
             if ty in (SPANS, ROWS) and f.attr == "reverse" and not c.args:
                 return f"{pad}let {ln(base)} := {ln(base)}.reverse\n" + nxt(env)
+        # self.annotation_db.add_feature(**feature_data): the record written to the db is part of the result
+        if isinstance(f, ast.Attribute) and f.attr == "add_feature" and ast.unparse(f.value) == "self.annotation_db":
+            star = [k.value for k in c.keywords if k.arg is None]
+            if c.args or len(c.keywords) != 1 or len(star) != 1 or not isinstance(star[0], ast.Name) \
+                    or env.types.get(star[0].id) != FEATURE or set(env.feat) != {"spans", "strand"}:
+                self.fail(s, "db write outside the fragment")
+            if env.types.get("dbRecord") is not None:
+                self.fail(s, "two db writes on one path")
+            sub_ = nxt
+            e2 = env.copy()
+            e2.types["dbRecord"] = "DbRecord"
+            return f"{pad}let dbRecord := ({env.feat['spans'][0]}, {env.feat['strand'][0]})\n" + sub_(e2)
         self.fail(s, "expression statement outside the fragment")
 
     def if_stmt(self, s, rest, env, k, ind):
@@ -726,10 +833,14 @@ class Fn:
                     names.append(n)
                 else:
                     dropped.append(n)
-            if set(ea.feat.items()) != set(env.feat.items()) or set(eb.feat.items()) != set(env.feat.items()):
-                self.fail(s, "feature fields set inside a conditional")
-            if not names:
+            feat_changed = set(ea.feat.items()) != set(env.feat.items()) or set(eb.feat.items()) != set(env.feat.items())
+            if not names and not feat_changed:
                 self.fail(s, "a conditional that assigns nothing that lives on")
+            if feat_changed:
+                # feature fields set inside a conditional: the rest of the function is duplicated into both arms
+                a = self.block(s.body + rest, env, k, ind + 1)
+                b = self.block(s.orelse + rest, env, k, ind + 1)
+                return f"{pad}if {c} then (\n" + a + f"{pad}) else (\n" + b + f"{pad})\n"
 
             def arm(stmts):
                 def fin(e):
@@ -770,6 +881,16 @@ class Fn:
         # elementwise in-place map:  for i, v in enumerate(a.ravel()): ...; a.ravel()[i] = e
         if isinstance(it, ast.Call) and isinstance(it.func, ast.Name) and it.func.id == "enumerate":
             return self.ravel_loop(s, rest, env, k, ind)
+        # for key in ("on_alignment", "parent_id"): feature.pop(key)  -- dict plumbing of keys that carry no coordinates
+        if isinstance(it, (ast.Tuple, ast.List)) and it.elts and all(isinstance(x, ast.Constant) and isinstance(x.value, str) for x in it.elts) \
+                and isinstance(s.target, ast.Name) and len(s.body) == 1 and isinstance(s.body[0], ast.Expr):
+            c = s.body[0].value
+            ok = (isinstance(c, ast.Call) and isinstance(c.func, ast.Attribute) and c.func.attr == "pop" and isinstance(c.func.value, ast.Name)
+                  and env.types.get(c.func.value.id) == FEATURE and len(c.args) == 1 and isinstance(c.args[0], ast.Name)
+                  and c.args[0].id == s.target.id and not c.keywords)
+            if not ok or {x.value for x in it.elts} & {"spans", "strand"}:
+                self.fail(s, "loop over keys outside the fragment")
+            return self.block(rest, env, k, ind)
         xs, tx = self.expr(it, env)
         e_body = env.copy()
         if tx == ROWS and isinstance(s.target, ast.Name):
@@ -920,6 +1041,12 @@ class Fn:
         if value is None:
             self.fail(s, "bare return")
         m = self.monadic_call(value, env)
+        if self.ret_type == "AddResult":
+            if m is None or m[1] != FEAT:
+                self.fail(s, "add_feature does not return a made feature")
+            if env.types.get("dbRecord") != "DbRecord":
+                self.fail(s, "add_feature returns before the db was written")
+            return f"{pad}match {m[0]} with\n{pad}| .error e => .error e\n{pad}| .ok f => .ok (dbRecord, f)\n"
         if m is not None:
             if m[1] != self.ret_type:
                 self.fail(s, f"returns a {m[1]}, expected {self.ret_type}")
@@ -1061,6 +1188,20 @@ def gen_sequence(path, ns):
     out.append("\n/-- the body of the db loop of `Sequence.get_features` for one record (`dbSpans`, `minus`) -/\n"
                "def featureOnView (sv : View) (minus : Bool) (dbSpans : List (Int × Int)) : Except FErr Feat :=\n" + body2)
     info["get_features"] = dict(prefix=len(prefix), slice=len(keep), body=len(loop.body))
+    # ---- add_feature
+    af = _need(u.method("add_feature"), "Sequence.add_feature", path)
+    names = _params(af)
+    for need in ("spans", "strand"):
+        if need not in names:
+            raise TranslationError(f"add_feature has no `{need}` parameter")
+    fn3 = Fn(u, af, "fn")
+    fn3.ret_type = "AddResult"
+    env3 = Env({n: (ROWS if n == "spans" else STRAND if n == "strand" else OPAQUE) for n in names})
+    body3 = fn3.block(af.body, env3, lambda e: fn3.fail(af, "falls off the end"), 1)
+    out.append("\n/-- `Sequence.add_feature(spans=, strand=)` on a view: the `(spans, strand)` of the record written to the annotation db\n"
+               "and the Feature returned (`strand` = (strand == \"-\"), B2) -/\n"
+               "def addFeature (sv : View) (spans : List (Int × Int)) (strand : Bool) : Except FErr ((List (Int × Int) × Bool) × Feat) :=\n" + body3)
+    info["add_feature"] = len(af.body)
     out.append(f"\nend {ns}\n")
     return "".join(out), info
 
